@@ -1146,6 +1146,8 @@ from mlmverif.selfcheck import B, OK  # noqa: E402
 _S = 'chainables/courier_server.py'
 _U = 'utils/courier_utils.py'
 VARIANTS = [
+    OK('next-batch-queue-through-a-local', 'chainables/courier_server.py',
+       "      result = self._generator.get_batch(batch_size, block=True)", "      prefetched = self._generator\n      result = prefetched.get_batch(batch_size, block=True)"),
     B('traced-list-key-becomes-a-tuple', 'chainables/lazy_fns.py',
       '  def __getitem__(self, key) -> LazyFn:\n    return LazyFn.new(operator.getitem, args=(self, key))',
       '  def __getitem__(self, key) -> LazyFn:\n    if isinstance(key, list):\n      key = tuple(key)\n    return LazyFn.new(operator.getitem, args=(self, key))', 'R-C14-29'),
